@@ -117,6 +117,13 @@ func JudgeAssignment(cl ClusterSpec, s SvcSpec, as []netip.Addr, pre Holders, ho
 			if gotBoth && better && full {
 				return Violationf("priority-ignored", "Allocate gave %s %v from pool %s (priority %d) although pool %s (priority %d) could give both families", s.Key(), as, p.Name, p.Alloc.Priority, q.Name, q.Alloc.Priority)
 			}
+			if !gotBoth && better {
+				// no pool gives both families: the one family it got must still come from the best-ranked pool that has it
+				if v4, v6 := pre.Supply(q, cand); (has4 && v4.IsValid()) || (has6 && v6.IsValid()) {
+					tr.Class("prefer-dual-partial-with-several-pinned-candidates")
+					return Violationf("priority-ignored", "Allocate gave PreferDualStack service %s only %v, from pool %s (priority %d), although pool %s (priority %d) has a free address of that family", s.Key(), as, p.Name, p.Alloc.Priority, q.Name, q.Alloc.Priority)
+				}
+			}
 			continue
 		}
 		if better && full {
